@@ -196,6 +196,20 @@ theorem C17_dict_roundtrip (d eq : Str) (c : Cls) (m : List (Str × Str))
   rw [unescapeDict_ok m (escapeValue (dangerous d eq))
     (fun kv hkv => unescape_escapeValue _ _ hb (hv kv hkv))]
 
+/-- **C17 (reserved characters in values are protected).**  The text written for a value contains
+no character of the delimiter or of the equal tag, no brace, bracket or double quote; what it
+contains beyond the harmless characters of the value is the `\\xNN` notation. -/
+theorem C17_values_protected (d eq v : Str) (hsd : SafeSep d) (hse : SafeSep eq)
+    (hv : ∀ a ∈ v, a.toNat < 256) :
+    Clean d (escapeValue (dangerous d eq) v) ∧ Clean eq (escapeValue (dangerous d eq) v)
+      ∧ Clean ['{', '}', '[', ']', '"'] (escapeValue (dangerous d eq) v) :=
+  ⟨escapeValue_clean _ d v hsd (by intro ch h; simp [dangerous, h]) hv,
+   escapeValue_clean _ eq v hse (by intro ch h; simp [dangerous, h]) hv,
+   escapeValue_clean _ _ v (by decide) (by
+     intro ch h
+     simp only [List.mem_cons, List.not_mem_nil, or_false] at h
+     rcases h with h | h | h | h | h <;> simp [dangerous, h]) hv⟩
+
 /-- **C17 (nested mappings serialise).**  On every tree of mappings, lists and scalars in which no
 list directly contains `None`, with every setting of the flags, `serialize_dict` raises nothing.
 (`capitalize_* ≠ 0` on text outside ASCII is outside the modelled case tables: the model then
@@ -249,6 +263,7 @@ example : deserializeList "a;;b c".toList [';'] true (some '\\') = .ok ["a".toLi
 example : Clean [';'] "b c".toList := by decide
 example : keyValue ['='] none (some ['D']) "key".toList = .ok ("key".toList, some ['D']) := by decide
 example : SafeSep [';'] ∧ SafeSep ['=', '>'] := by constructor <;> decide
+example : escapeValue (dangerous [';'] ['=']) "a=b;{".toList = "a\\x3db\\x3b\\x7b".toList := by decide
 example : dictRoundTrip [';'] ['='] (flatVal .n0 [(['k'], "a;b={\\}\"".toList), ([], [])])
     = some [(['k'], "a;b={\\}\"".toList), ([], [])] := by decide
 example : serializeDict [';'] ['='] (.dict .plain [(['k'], .str []), (['j'], .dict .plain [(['a'], .int 1)])])
